@@ -31,10 +31,11 @@ using sim::Rng;
 enum { C_VARIANT = 0, C_QLEN, C_RECYCLE, C_UNIVERSE, C_ARENAS };
 enum {
     B_INSERT = 0, B_INSERT_HINT, B_INSERT_RANGE, B_ERASE_KEY, B_ERASE_ONE, B_ERASE_ITER, B_CLEAR, B_COPY_CTOR, B_ASSIGN, B_SWAP,
-    B_BULK_LOAD, B_DESTROY, B_CONSTRUCT, B_INSERT_ALIAS, B_ERASE_KEY_ALIAS, B_ERASE_ONE_ALIAS, B_N
+    B_BULK_LOAD, B_DESTROY, B_CONSTRUCT, B_INSERT_ALIAS, B_ERASE_KEY_ALIAS, B_ERASE_ONE_ALIAS, B_MOVE_CTOR, B_MOVE_ASSIGN,
+    B_N
 };
 const uint32_t RECYCLE[] = {0, 300, 700, 1000};
-constexpr int NVARIANTS = 10;
+constexpr int NVARIANTS = 12;
 
 template <int LS, int IS, size_t BIN, typename K, typename V>
 struct Traits : tlx::btree_default_traits<K, V> {
@@ -79,7 +80,7 @@ void run(const Workload& w, Result& res, bool tracked) {
     auto fresh = [&](int slot) { return std::make_unique<C>(typename C::allocator_type(arenas ? slot + 1 : 0)); };
     if (arenas) res.probe("distinct_allocator_instances");
     static const char* names[] = {"insert", "insert_hint", "insert_range", "erase_key", "erase_one", "erase_iter", "clear", "copy_ctor",
-                                  "assign", "swap", "bulk_load", "destroy", "construct", "insert_alias", "erase_key_alias", "erase_one_alias"};
+                                  "assign", "swap", "bulk_load", "destroy", "construct", "insert_alias", "erase_key_alias", "erase_one_alias", "move_ctor", "move_assign"};
     int step = 0, payload = 1;
     const int64_t live0 = sim::tracked_live();
     auto ins_shadow = [&](int s, int k) { if (Dup || shadow[s].count(k) == 0) shadow[s].insert(k); };
@@ -185,6 +186,23 @@ void run(const Workload& w, Result& res, bool tracked) {
                     if (f != shadow[i].end()) shadow[i].erase(f);
                 }
                 break;
+            // construction / assignment from an rvalue (a copy where the container has no move operations); the
+            // source stays a valid tree in an unspecified state: its shadow is re-read from the tree itself
+            case B_MOVE_CTOR:
+                if (t[j] && i != j) {
+                    auto c = std::make_unique<C>(std::move(*t[j]));
+                    t[i] = std::move(c); shadow[i] = shadow[j];
+                    shadow[j].clear();
+                    for (auto it = t[j]->begin(); it != t[j]->end(); ++it) shadow[j].insert(V::key(*it));
+                }
+                break;
+            case B_MOVE_ASSIGN:
+                if (t[j] && i != j) {
+                    *t[i] = std::move(*t[j]); shadow[i] = shadow[j];
+                    shadow[j].clear();
+                    for (auto it = t[j]->begin(); it != t[j]->end(); ++it) shadow[j].insert(V::key(*it));
+                }
+                break;
             case B_DESTROY: t[i] = nullptr; shadow[i].clear(); break;
             case B_CONSTRUCT: t[i] = nullptr; t[i] = fresh(i); shadow[i].clear(); break;
             }
@@ -224,6 +242,10 @@ void run(const Workload& w, Result& res, bool tracked) {
     if (tracked && res.ok && sim::tracked_err_destroy()) res.fail("btree_lifetime", "an element was destroyed twice during destruction");
 }
 
+// the core class used directly (the facades above wrap it and declare their own copy operations)
+struct KeyOfInt { static const int& get(const int& v) { return v; } };
+struct KeyOfT { static const sim::Tracked& get(const sim::Tracked& v) { return v; } };
+
 using PII = std::pair<int, int>;
 using PIT = std::pair<int, sim::Tracked>;
 using T = sim::Tracked;
@@ -243,7 +265,9 @@ void execute(const Workload& w, Result& res) {
     case 6: run<tlx::btree_multimap<int, T, std::less<int>, Traits<4, 4, BINS, int, PIT>, sim::Alloc<PIT> >, true, true, false>(w, res, true); break;
     case 7: run<tlx::btree_set<int, std::greater<int>, Traits<4, 5, BINS, int, int>, sim::Alloc<int> >, false, false, true>(w, res, false); break;
     case 8: run<tlx::btree_multiset<T, TLess, Traits<5, 7, LIN, T, T>, sim::Alloc<T> >, false, true, false>(w, res, true); break;
-    default: run<tlx::btree_map<int, int, std::less<int>, Traits<7, 4, LIN, int, PII>, sim::Alloc<PII> >, true, false, false>(w, res, false); break;
+    case 9: run<tlx::btree_map<int, int, std::less<int>, Traits<7, 4, LIN, int, PII>, sim::Alloc<PII> >, true, false, false>(w, res, false); break;
+    case 10: run<tlx::BTree<int, int, KeyOfInt, std::less<int>, Traits<5, 5, BINS, int, int>, true, sim::Alloc<int> >, false, true, false>(w, res, false); break;
+    default: run<tlx::BTree<T, T, KeyOfT, TLess, Traits<4, 6, LIN, T, T>, false, sim::Alloc<T> >, false, false, false>(w, res, true); break;
     }
     sim::alloc_env().finish();
     for (auto& e : sim::alloc_env().errors()) res.fail("alloc_ledger", e);
